@@ -163,6 +163,17 @@ class AWSElastiCacheHashClient(HashClient):
         for server in self._get_nodes_list():
             self.add_server(normalize_server_spec(server))
 
+        # Nodes that are no longer advertised leave the rotation, otherwise
+        # keys are still routed to them although they have no client anymore.
+        for key, client in old_clients.items():
+            if key not in self.clients:
+                self._failed_clients.pop(client.server, None)
+                self._dead_clients.pop(client.server, None)
+                try:
+                    self.hasher.remove_node(key)
+                except ValueError:
+                    pass  # already taken out of rotation by the failover logic
+
         for client in old_clients.values():
             client.close()
 
@@ -189,6 +200,7 @@ class AWSElastiCacheHashClient(HashClient):
                 "Seems like it is ElastiCache Serverless or even isn't ElastiCache at all.",
                 client.server,
             )
+            raise
         finally:
             client.close()
 
